@@ -68,6 +68,12 @@ func GateSpecs(c *Ctx, prop string) []GateSpec {
 			"(*sign/tbls.scheme).IndexOf",
 			"(sign/tbls.SigShare).Index",
 			"(*group/mod.Int).UnmarshalBinary",
+			// composite messages parsed from untrusted bytes
+			"sign/schnorr.VerifyWithChecks", "sign/eddsa.VerifyWithChecks", "(*sign/bls.scheme).Verify", "sign/cosi.Verify",
+			"(*sign/bdn.Scheme).AggregateSignatures", "(*sign/tbls.scheme).Recover", "(*sign/tbls.SigShare).Value",
+			"encrypt/ecies.Decrypt", "sign/anon.Decrypt", "sign/anon.decryptKey", "sign/anon.Verify",
+			"proof.HashVerify", "(*proof.hashVerifier).consumeMsg", "(*proof.hashVerifier).Get",
+			"share/dkg/pedersen.VerifyPacketSignature",
 		)...)
 	case "C07":
 		s = rets("share.RecoverSecret", "share.RecoverCommit", "share.RecoverPriPoly", "share.RecoverPubPoly", "(*share.PubPoly).Check",
